@@ -192,7 +192,7 @@ fn main() {{}}
     obls = [Obl("C07.block.supplies", ["C07"], fn="Block::supplies", desc="Block::supplies: what its statements supply, in order"),
             Obl("C07.block.dependencies", ["C07"], fn="Block::dependencies", desc="Block::dependencies: the free variables of its statements, in order, none dropped"),
             Obl("C07.function.supplies", ["C07"], fn="Function::supplies", desc="Function::supplies: its parameters"),
-            Obl("C07.function.dependencies", ["C07"], fn="Function::dependencies", desc="Function::dependencies: its body's free variables, each marked as having crossed one more function boundary"),
+            Obl("C07.function.dependencies", ["C07", "C16"], fn="Function::dependencies", desc="Function::dependencies: its body's free variables, each marked as having crossed one more function boundary -- the body's analysis called once and nothing else (a second call per nesting level is 2^depth: C16)"),
             Obl("C07.block.net", ["C07"], fn="Block::net_dependencies", desc="Block::net_dependencies: a block is not a function boundary (D97: a captured variable read inside an if / loop body was taken for a same-named local declared later in the function)"),
             Obl("C07.function.capture-list", ["C07"], fn="Function::in_place_compile_for_value[capture list]", desc="in_place_compile_for_value: make_function is given the label followed by exactly the names of the function's net dependencies")]
     if cross_txt:
@@ -200,6 +200,6 @@ fn main() {{}}
     return gen, obls, log
 
 
-UNITS = [VUnit("c07_block_deps", ["C07"], "capture analysis of blocks and functions; the capture list of make_function", build)]
+UNITS = [VUnit("c07_block_deps", ["C07", "C16"], "capture analysis of blocks and functions; the capture list of make_function", build)]
 UNITS[0].assumes = ["the statements' own supplies / net dependencies (units c07_stmt_deps, c07_deps) and get_net_dependencies (c07_net_deps) are abstract callees",
                     "std iterator / HashSet / Vec::extend contracts as stated (order of a HashSet arbitrary)"]
